@@ -354,6 +354,12 @@ def e2e_case(ctx, case):
         os_ = call(add_link, build(case), case, dict(src=[(a, "obj")], tgt=a, param=f"f{(a + 1) % 4}", fn=False))
         if os_.accepted:
             return ("e2e/self-link-accepted", dict(case=case, node=a))
+        if holders[a] and case["kinds"][a] == "group":
+            # a class group feeding a parameter of the object nested in itself: the group is built after its nested object
+            osn = call(add_link, build(case), case, dict(src=[(a, "attr")], tgt=a, param=f"f{(a + 1) % 4}", fn=False, nested=True))
+            ctx.count("mon.e2e.self_link_through_nested_target")
+            if osn.accepted:
+                return ("e2e/self-link-accepted/group-feeding-its-own-nested-object", dict(case=case, node=a))
         # the refusal must not have broken the parser: what was accepted before is still an acyclic set
         o3 = call(fresh.parse_args, argv_for(case))
         zoo16.LOG.clear()
